@@ -128,3 +128,13 @@ Definition py_str_int (z : Z) : str := if (z <? 0)%Z then 45 :: print_nat (Z.to_
 Fixpoint basename_acc (acc s : str) : str :=
   match s with [] => acc | c :: r => if Z.eqb c 47 then basename_acc [] r else basename_acc (acc ++ [c]) r end.
 Definition basename (s : str) : str := basename_acc [] s.
+
+(* ---------- configuration values as ConfigService.__getattribute__ handles them ----------
+   a variable that may hold a value or Python's None is an `option cv`; where the code has already established that it is not None
+   the translator holds the value itself: as_opt_cv reads either *)
+Class AsOptCv (A : Type) := as_opt_cv : A -> option cv.
+#[global] Instance cv_as_opt : AsOptCv cv := Some.
+#[global] Instance optcv_as_opt : AsOptCv (option cv) := fun x => x.
+(* callable(x) / x(): only a function-valued setting is callable *)
+Definition is_callable_opt (x : option cv) : bool := match x with Some (VFun _) => true | _ => false end.
+Definition call_opt (x : option cv) : option cv := match x with Some (VFun r) => Some r | _ => x end.
